@@ -458,7 +458,12 @@ pub fn run(tier: &str) -> i32 {
             let limit = (200.0 * flat).max(2.0);
             rep.states += 1;
             rep.evaluations += 1;
-            match run_child(kind, d, limit.ceil() as u64 + 1) {
+            // one retry for a child that produced no result (machine under heavy load), timeouts are verdicts
+            let mut res = run_child(kind, d, limit.ceil() as u64 + 1);
+            if matches!(&res, Err(e) if !e.starts_with("timeout")) {
+                res = run_child(kind, d, limit.ceil() as u64 + 1);
+            }
+            match res {
                 Ok(t) => {
                     wall.push(json!({"family": kind, "depth": d, "seconds": t, "flat_reference": flat}));
                     if t > limit {
